@@ -82,6 +82,12 @@ def build_items(tier, seed, wd):
             files = corpus.stratified_sample(cand, 160 if tier == "quick" else len(cand), seed + 5, always=("/styles/code_examples/",))
             for p in files:
                 add(p, ["--fix", "-c", cfgfile], "affix_" + cname)
+    # generated designs (harness/gendesign.py): a fixed second corpus in which constructs meet that no fixture combines
+    import gendesign
+
+    for name, text in gendesign.designs(60 if tier == "quick" else 300):
+        tid += 1
+        items.append({"tid": tid, "text": text, "name": name, "args": ["--fix"], "tag": "default"})
     # every documented form of number_of_spaces on all rules that have the option
     forms = configs.NUMBER_OF_SPACES_FORMS[:2] if tier == "quick" else configs.NUMBER_OF_SPACES_FORMS
     for k, form in enumerate(forms):
@@ -117,7 +123,7 @@ def build_items(tier, seed, wd):
     return items, sweeps
 
 
-FAMILY_FILES = ['spec/FixSchedule.tla', 'spec/MC_FixSchedule_quick.cfg', 'spec/MC_FixSchedule_thorough.cfg', 'harness/fixfam.py', 'harness/runfix.py', 'harness/configs.py', 'harness/variants.py', 'harness/vlex.py', 'spec/Edits.tla', 'spec/FixTrace.tla', 'spec/FixTrace.cfg', 'spec/FixPipeline.tla', 'spec/MC_FixPipeline_quick.cfg', 'spec/MC_FixPipeline_thorough.cfg']
+FAMILY_FILES = ['harness/gendesign.py', 'spec/FixSchedule.tla', 'spec/MC_FixSchedule_quick.cfg', 'spec/MC_FixSchedule_thorough.cfg', 'harness/fixfam.py', 'harness/runfix.py', 'harness/configs.py', 'harness/variants.py', 'harness/vlex.py', 'spec/Edits.tla', 'spec/FixTrace.tla', 'spec/FixTrace.cfg', 'spec/FixPipeline.tla', 'spec/MC_FixPipeline_quick.cfg', 'spec/MC_FixPipeline_thorough.cfg']
 
 
 def collect(tier):
